@@ -51,7 +51,7 @@ func runC05(r *Run) {
 	r.CacheInventory([]string{"consensus", "consensus/storage", "verifier", "pillar"}, cacheTriage, "an election or a verdict memoised under a key that does not pin the chain it was computed on (a tick, a height) survives a reorganisation below it")
 	r.Alias("$m", "recv.momentum")
 	r.Alias("$look", "make(map[types.HashHeight]*nom.AccountBlock)")
-	r.Alias("$hdr", "$m.Content[(iter+1)]")
+	r.Alias("$hdr", "$m.Content[iter]")
 	rows := []row{
 		{F: "verifier.(*rawMomentumVerifier).all", C: "ne(nil,recv.chainIdentifier())"},
 		{F: "verifier.(*rawMomentumVerifier).all", C: "ne(nil,recv.version())"},
@@ -108,7 +108,7 @@ func runC05(r *Run) {
 	r.GuardLike(ct, "ne(nil,recv.momentumStore.GetFrontierAccountBlock($hdr.Address)#1)", c05Why[ct])
 	r.GuardLike(ct, "F($look[$hdr.Identifier()]#1)", c05Why[ct])
 	r.GuardLike(ct, "ne($look[$hdr.Identifier()]#0.Previous(),", c05Why[ct])
-	r.Has(ct, "store $look[recv.accountBlocks[(iter+1)].Identifier()] = recv.accountBlocks[(iter+1)]", "prefetched blocks are indexed by their own identifier")
+	r.Has(ct, "store $look[recv.accountBlocks[iter].Identifier()] = recv.accountBlocks[iter]", "prefetched blocks are indexed by their own identifier")
 
 	r.AllWired("verifier", "rawMomentumVerifier", "all", "a check that exists but is not wired never runs")
 	r.AllWired("verifier", "momentumTransactionVerifier", "all", "a check that exists but is not wired never runs")
@@ -133,8 +133,8 @@ func runC05(r *Run) {
 	// producer identity
 	r.Returns("consensus.(*consensus).VerifyMomentumProducer", []string{"false, recv.GetMomentumProducer(a0.Timestamp)#1", "true, nil", "false, nil"}, "verdict forms")
 	r.Branch("consensus.(*consensus).VerifyMomentumProducer", "eq(a0.Producer(),recv.GetMomentumProducer(a0.Timestamp)#0)", "the compared identity is the momentum's producer (derived from its verified public key) against the elected one for its own timestamp")
-	r.Branch("consensus.(*consensus).GetMomentumProducer", "eq(a0,recv.electionManager.ElectionByTime(a0)#0.Producers[(iter+1)].StartTime)", "the producer is the plan entry whose slot starts exactly at the timestamp")
-	r.Returns("consensus.(*consensus).GetMomentumProducer", []string{"nil, recv.electionManager.ElectionByTime(a0)#1", "nil, errors.Errorf(…)", "recv.electionManager.ElectionByTime(a0)#0.Producers[(iter+1)].Producer, nil"}, "result forms")
+	r.Branch("consensus.(*consensus).GetMomentumProducer", "eq(a0,recv.electionManager.ElectionByTime(a0)#0.Producers[iter].StartTime)", "the producer is the plan entry whose slot starts exactly at the timestamp")
+	r.Returns("consensus.(*consensus).GetMomentumProducer", []string{"nil, recv.electionManager.ElectionByTime(a0)#1", "nil, errors.Errorf(…)", "recv.electionManager.ElectionByTime(a0)#0.Producers[iter].Producer, nil"}, "result forms")
 	r.Returns("chain/nom.(*Momentum).Producer", []string{"recv.producer"}, "Producer() returns the cached address")
 	r.Has("chain/nom.(*Momentum).Producer", "store recv.producer = types.PubKeyToAddress(recv.PublicKey)", "the cached producer is derived from the public key the signature was verified with")
 	r.Branch("chain/nom.(*Momentum).Producer", "eq(nil,recv.producer)", "computed when not cached")
@@ -151,7 +151,7 @@ func runC05(r *Run) {
 	}
 	r.Has("chain/momentum.(*momentumStore).ComputePillarDelegations", "sort.Sort(iter(make([]*types.PillarDelegationDetail)))", "the delegation list handed to the election is sorted by the total order")
 	r.Branch("consensus.generateProducers", "ne(conv:int(a0.Consensus.NodeCount),len(a2))", "a schedule has exactly NodeCount slots or none")
-	r.Has("consensus.generateProducers", "store new(consensus.ProducerEvent).Producer = a2[(iter+1)]", "slot i belongs to producer i of the elected list")
+	r.Has("consensus.generateProducers", "store new(consensus.ProducerEvent).Producer = a2[iter]", "slot i belongs to producer i of the elected list")
 	gp := "consensus.(*electionManager).generateProducers"
 	r.Has(gp, "recv.db.GetElectionResultByHash(a0.Hash)", "cache read is content-addressed by the proof momentum's hash: a reorg cannot alias entries")
 	r.HasPrefix(gp, "recv.db.StoreElectionResultByHash(a0.Hash,", "cache write uses the same content-addressed key")
@@ -170,14 +170,14 @@ func runC05(r *Run) {
 func electionCodecRules(r *Run) {
 	um := "consensus/storage.(*ElectionData).Unmarshal"
 	r.NoMakeThenAppend([]string{um, "consensus/storage.(*ElectionData).Marshal", "consensus/storage.(*Point).Marshal", "consensus/storage.(*Point).Unmarshal", "common/types.ToPillarDelegation", "consensus.(*electionManager).generateProducers"}, "a slice created with a non-zero length and then appended to doubles its length with zero entries (the decoded schedule would not have NodeCount producers)")
-	r.Has(um, "store new(types.PillarDelegation).Weight = big.NewInt(0).SetBytes(new(storage.ElectionDataProto).Delegations[(iter+1)].Weight)", "weight round-trips")
-	r.Has(um, "store new(types.PillarDelegation).Name = new(storage.ElectionDataProto).Delegations[(iter+1)].Name", "name round-trips")
-	r.Has(um, "store new(types.PillarDelegation).Producing = types.BytesToAddress(new(storage.ElectionDataProto).Delegations[(iter+1)].ProducingAddress)#0", "producing address round-trips")
+	r.Has(um, "store new(types.PillarDelegation).Weight = big.NewInt(0).SetBytes(new(storage.ElectionDataProto).Delegations[iter].Weight)", "weight round-trips")
+	r.Has(um, "store new(types.PillarDelegation).Name = new(storage.ElectionDataProto).Delegations[iter].Name", "name round-trips")
+	r.Has(um, "store new(types.PillarDelegation).Producing = types.BytesToAddress(new(storage.ElectionDataProto).Delegations[iter].ProducingAddress)#0", "producing address round-trips")
 	mm := "consensus/storage.(*ElectionData).Marshal"
-	r.Has(mm, "store new(storage.PillarDelegationProto).Name = recv.Delegations[(iter+1)].Name", "name written")
-	r.Has(mm, "store new(storage.PillarDelegationProto).ProducingAddress = recv.Delegations[(iter+1)].Producing.Bytes()", "producing address written")
-	r.Has(mm, "store new(storage.PillarDelegationProto).Weight = recv.Delegations[(iter+1)].Weight.Bytes()", "weight written")
-	r.Has(mm, "store new(storage.ElectionDataProto).Producers = append(new(storage.ElectionDataProto).Producers,list(recv.Producers[(iter+1)].Bytes()))", "each producer slot is written from its own element, by value (Bytes() copies; a slice of the loop variable would alias one slot into all)")
+	r.Has(mm, "store new(storage.PillarDelegationProto).Name = recv.Delegations[iter].Name", "name written")
+	r.Has(mm, "store new(storage.PillarDelegationProto).ProducingAddress = recv.Delegations[iter].Producing.Bytes()", "producing address written")
+	r.Has(mm, "store new(storage.PillarDelegationProto).Weight = recv.Delegations[iter].Weight.Bytes()", "weight written")
+	r.Has(mm, "store new(storage.ElectionDataProto).Producers = append(new(storage.ElectionDataProto).Producers,list(recv.Producers[iter].Bytes()))", "each producer slot is written from its own element, by value (Bytes() copies; a slice of the loop variable would alias one slot into all)")
 	r.LoopBodyStraight(mm, "recv.Delegations", "the stored election must be the computed election: no delegation is left out of the record")
 	r.LoopBodyStraight(mm, "recv.Producers", "no producer slot is left out of the record")
 	r.LoopBodyStraight(um, "new(storage.ElectionDataProto).Delegations", "every stored delegation is read back")
